@@ -108,7 +108,7 @@ structure Ledger where
 inductive Err
   | decode | dupTx | txRoot                                   -- types.Block.Deserialization
   | notNext                                                   -- AddBlock / SubmitBlock / ExecuteBlock / AddHeader: height ≠ next
-  | prevTip                                                   -- (sound variant only) prev hash ≠ current block hash
+  | prevTip                                                   -- AddBlock / SubmitBlock: prev hash ≠ current block hash
   | prevUnknown | prevHeight | timestamp | bkAddr | bkMismatch | sigCount | sigInvalid   -- verifyHeader
   | closing | exec | stateRoot                                -- saveBlock
   | blockRoot                                                 -- submitBlock
@@ -118,10 +118,6 @@ inductive Outcome
   | added                    -- nil error, block committed
   | ignored                  -- nil error, nothing done (`return nil` on a stale height)
   | rejected (e : Err)
-  deriving Repr, DecidableEq
-
-/-- as shipped / with the previous-hash-is-tip guard (see `Props/C39.lean`, finding `prev-hash-not-tip`) -/
-inductive Variant | asShipped | sound
   deriving Repr, DecidableEq
 
 inductive Step
@@ -272,16 +268,14 @@ def submitSteps (P : Prims) (b : Block) : List Step :=
 def delHeaderCache (hash : Hash) (l : Ledger) : Ledger :=
   { l with mem := { l.mem with hdrCache := l.mem.hdrCache.filter (fun e => e.1 ≠ hash) } }
 
-def heightGuards (v : Variant) (b : Block) : List Step :=
+def heightGuards (b : Block) : List Step :=
   [ .stop "blockHeight <= currBlockHeight" (fun l => decide (b.hdr.u.height ≤ l.mem.curHeight)),
-    .guard "blockHeight != nextBlockHeight" (fun l => if b.hdr.u.height ≠ (l.mem.curHeight + 1) % u32 then some .notNext else none) ]
-  ++ (match v with
-      | .asShipped => []
-      | .sound => [ .guard "(repair) PrevBlockHash != currBlockHash" (fun l => if b.hdr.u.prev ≠ l.mem.curHash then some .prevTip else none) ])
+    .guard "blockHeight != nextBlockHeight" (fun l => if b.hdr.u.height ≠ (l.mem.curHeight + 1) % u32 then some .notNext else none),
+    .guard "block.Header.PrevBlockHash != this.GetCurrentBlockHash()" (fun l => if b.hdr.u.prev ≠ l.mem.curHash then some .prevTip else none) ]
 
 /-- `AddBlock(block, nil, stateMerkleRoot)`: the path of a syncing node -/
-def addBlockSteps (v : Variant) (P : Prims) (b : Block) (sr : Hash) : List Step :=
-  heightGuards v b
+def addBlockSteps (P : Prims) (b : Block) (sr : Hash) : List Step :=
+  heightGuards b
   ++ verifyHeaderSteps P b.hdr
   ++ [ .stop "blockHeight > 0 && blockHeight <= this.GetCurrentBlockHeight()" (fun l => decide (0 < b.hdr.u.height ∧ b.hdr.u.height ≤ l.mem.curHeight)),
        .guard "this.closing" (fun l => if l.mem.closing then some .closing else none),
@@ -296,25 +290,25 @@ def addBlockSteps (v : Variant) (P : Prims) (b : Block) (sr : Hash) : List Step 
 
 /-- `ExecuteBlock(block)` then `SubmitBlock(block, nil, result)`: the path of a consensus node.  `ExecuteBlock` answers a
 stale height with the stored state root (no error) and `SubmitBlock` then returns nil. -/
-def submitBlockSteps (v : Variant) (P : Prims) (b : Block) : List Step :=
+def submitBlockSteps (P : Prims) (b : Block) : List Step :=
   [ .guard "ExecuteBlock: blockHeight != nextBlockHeight"
       (fun l => if b.hdr.u.height ≤ l.mem.curHeight then none
                 else if b.hdr.u.height ≠ (l.mem.curHeight + 1) % u32 then some .notNext else none),
     .guard "ExecuteBlock: executeBlock"
       (fun l => if b.hdr.u.height ≤ l.mem.curHeight then none else if (execRes P l b).isNone then some .exec else none),
     .guard "this.closing" (fun l => if l.mem.closing then some .closing else none) ]
-  ++ heightGuards v b
+  ++ heightGuards b
   ++ verifyHeaderSteps P b.hdr
   ++ submitSteps P b
   ++ [ .effect "delHeaderCache" (delHeaderCache (P.hdrHash b.hdr.u)) ]
 
 /-- bytes from a peer: `types.BlockFromRawBytes` then `AddBlock` -/
-def addBlockBytesSteps (v : Variant) (P : Prims) (b : Block) (sr : Hash) : List Step :=
-  decodeSteps P b ++ addBlockSteps v P b sr
+def addBlockBytesSteps (P : Prims) (b : Block) (sr : Hash) : List Step :=
+  decodeSteps P b ++ addBlockSteps P b sr
 
-def addBlock (v : Variant) (P : Prims) (b : Block) (sr : Hash) (l : Ledger) : Outcome × Ledger := run (addBlockSteps v P b sr) l
-def addBlockBytes (v : Variant) (P : Prims) (b : Block) (sr : Hash) (l : Ledger) : Outcome × Ledger := run (addBlockBytesSteps v P b sr) l
-def submitBlock (v : Variant) (P : Prims) (b : Block) (l : Ledger) : Outcome × Ledger := run (submitBlockSteps v P b) l
+def addBlock (P : Prims) (b : Block) (sr : Hash) (l : Ledger) : Outcome × Ledger := run (addBlockSteps P b sr) l
+def addBlockBytes (P : Prims) (b : Block) (sr : Hash) (l : Ledger) : Outcome × Ledger := run (addBlockBytesSteps P b sr) l
+def submitBlock (P : Prims) (b : Block) (l : Ledger) : Outcome × Ledger := run (submitBlockSteps P b) l
 
 /-- `AddHeader` (header sync): next header height, `verifyHeader`, then cache + index -/
 def addHeaderSteps (P : Prims) (h : Hdr) : List Step :=
